@@ -163,4 +163,12 @@ Exercised(o) ==
    crlf |-> IF CRLFConstrained(o) THEN 1 ELSE 0,
    chain |-> IF o.font.s = 0 THEN Len(o.chains) ELSE 0,
    bounded |-> Len(o.small)]
+\* very large line heights (event "tall": sparse pictures as coloured runs <<y, x0, x1, c>>): the text equals its lines
+\* drawn separately line_height apart, and returns what its last line returns
+TallCRuns(rs) == UNION { { <<x, rs[i][1], rs[i][4]>> : x \in rs[i][2]..rs[i][3] } : i \in 1..Len(rs) }
+TallFails(o) ==
+  LET d == LineHeightA(o.lh, o.ch) IN
+       (IF \A j \in 1..Len(o.lines) : o.lines[j].y - o.pos[2] = (j - 1) * d THEN {} ELSE {"tall_driver_used_another_line_distance"})
+  \cup (IF TallCRuns(o.map) = UNION { TallCRuns(o.lines[j].map) : j \in 1..Len(o.lines) } THEN {} ELSE {"text_differs_from_lines_line_height_apart"})
+  \cup (IF o.ret = o.lines[Len(o.lines)].ret THEN {} ELSE {"returned_position_differs_from_last_line"})
 =============================================================================
